@@ -132,9 +132,14 @@ def check_keep_flow(ctx: Ctx):
     if isinstance(v, ast.ListComp) and len(v.generators) == 1:
         gen = v.generators[0]
         tgt = norm(gen.target)
-        src_names = norm(gen.iter)
-        ok = norm(v.elt) == f"qc[{tgt}]" and "returns.bitvec" in src_names
-    ctx.check(ok, "MP-keep-guard", fi, "keep = qubits of returns.bitvec", "[qc[r] for r in ... returns.bitvec]", why + ": the output qubits are not what is excluded from the final replay", ua[0])
+        src = gen.iter
+        # filter(lambda r: r in qc, X) -> X
+        if isinstance(src, ast.Call) and isinstance(src.func, ast.Name) and src.func.id == "filter" and len(src.args) == 2:
+            src = src.args[1]
+        conds_ok = all(norm(c).replace(tgt, "r") in ("r in qc",) for c in gen.ifs)
+        ok = norm(v.elt) == f"qc[{tgt}]" and norm(src) == "returns.bitvec" and conds_ok
+        why = f"`keep` is built from `{norm(src)}`"
+    ctx.check(ok, "MP-keep-guard", fi, "keep = qubits of returns.bitvec", "[qc[r] for r in ... returns.bitvec]", why + ": exactly the qubits of the return bits must be excluded from the final replay (leaving them out uncomputes the result; adding other names, which may have been re-bound to scratch qubits, leaves those dirty)", ua[0])
     facts = [norm(e) for e, pol in guard_facts(fi, ua[0]) if pol]
     ctx.check("uncompute" in facts, "MP-flag", fi, "final replay under the uncompute flag", f"guards={facts}", "uncompute_all is not guarded by the uncompute flag", ua[0])
     # it is the last circuit-changing step
